@@ -178,6 +178,8 @@ def bad_literals():
 
 
 def run(rep, tier):
+    from .. import scale
+    scale.run(rep, PROP, tier)          # size ladders (seedverif/scale.py): the entries that concern this property
     rng = core.rng_for(PROP)
     descs = []
     nmax = 2
